@@ -142,6 +142,10 @@ def whileFuel {σ : Type} (guard cond : σ → Bool) (body : σ → σ × Bool) 
       else .ok s
     else .panic
 
+/-- `for i in l { … }` with `break`: the flag returned by `body` stops the loop with the state reached -/
+def forBreak {σ ι : Type} (l : List ι) (body : σ → ι → σ × Bool) (s : σ) : σ :=
+  (l.foldl (fun (p : σ × Bool) i => if p.2 then p else body p.1 i) (s, false)).1
+
 /-- float comparisons against a finite literal: false on NaN (`none`) -/
 def fLe (a : Option Rat) (b : Rat) : Bool := match a with | some x => decide (x ≤ b) | none => false
 def fLt (a : Option Rat) (b : Rat) : Bool := match a with | some x => decide (x < b) | none => false
